@@ -141,7 +141,7 @@ class Run:
             return r
         return root
 
-    def race(self, K, mode, M, prefix):
+    def race(self, K, mode, M, prefix, line=False):
         self.prepare()
         before = self.tree()
         log = []
@@ -164,7 +164,7 @@ class Run:
                 except Exception:
                     pass
             s.active = False
-        s = sched.run_schedule(body, prefix)
+        s = sched.run_schedule(body, prefix, line, os.path.join(uni.REPO, 'file_builder'))
         out['straggler'] = box.get('result')
         out['late_invoked'] = 'late_invoked' in log
         out['failure'] = None if s.failure is None else type(s.failure).__name__ + ':' + str(s.failure)[:80]
@@ -300,24 +300,31 @@ def work(ctx, task):
         return {'harness_error': 'C17 %s/%s/%s: default schedule not reproducible' % (K, mode, M), 'task': task}
     completed = None
     capped = False
-    for bnd in range(0, bound + 1):
-        ex = sched.Explorer(lambda p: R.race(K, mode, M, p), bnd, deadline=ctx.deadline)
+    passes = [(x, False) for x in range(0, bound + 1)]
+    if task['tier'] == 'thorough':
+        passes.append((1, True))          # granularity audit: every source line of the library is a point
+    line_execs = 0
+    for bnd, line in passes:
+        ex = sched.Explorer(lambda p: R.race(K, mode, M, p, line), bnd, deadline=ctx.deadline)
         for s, o in ex:
             counters['executions'] += 1
+            line_execs += 1 if line else 0
             attach = None
             if K != 'root' and o['build'][0] == 'ok' and not o['failure']:
                 attach = R.attach_test(K, mode, M)
             sig = (o['straggler'][0] if o['straggler'] else None, o['build'][0], o['late_invoked'], str(attach))
             outcomes.add(sig)
             for clause, facts in judge(K, mode, M, o, attach):
-                add(clause, facts, {'K': K, 'mode': mode, 'M': M, 'choices': list(s.choices)},
+                add(clause, facts, {'K': K, 'mode': mode, 'M': M, 'choices': list(s.choices), 'line': line},
                     {'straggler': o['straggler'], 'build': o['build'], 'attach': attach, 'preemptions': s.preemptions(),
                      'began_after_owner_done': None})
         if not ex.complete:
             capped = True
             break
-        completed = bnd
-    return {'counters': {'executions': counters['executions'], 'race_scenarios': 1, 'b%s' % completed: 1},
+        if not line:
+            completed = bnd
+    return {'counters': {'executions': counters['executions'], 'race_scenarios': 1, 'b%s' % completed: 1,
+                         'line_audit_executions': line_execs},
             'violations': violations, 'outcomes': {'%s/%s/%s:%s' % (K, mode, M, x) for x in outcomes},
             'samples': [{'builder': K, 'owner': mode, 'method': M, 'bound_completed': completed,
                          'executions': counters['executions'], 'distinct_outcomes': sorted(map(str, outcomes))}],
@@ -341,6 +348,7 @@ def coverage(res, tier):
         'transitions': c.get('executions', 0),
         'traces_validated_against_impl': c.get('executions', 0),
         'race_scenarios': c.get('race_scenarios', 0),
+        'line_granularity_audit_executions': c.get('line_audit_executions', 0),
         'scenarios_completed_at_bound': {k: v for k, v in c.items() if k.startswith('b') and k[1:].lstrip('-').isdigit()},
         'distinct_outcomes': len(res.outcomes),
         'exhaustive': not res.capped,
@@ -368,7 +376,7 @@ def replay(v):
     if 'sequential' in h:
         print('sequential case', h['sequential'], v['clause'], v['facts'])
         return 1
-    s, o = R.race(h['K'], h['mode'], h['M'], h['choices'])
+    s, o = R.race(h['K'], h['mode'], h['M'], h['choices'], bool(h.get('line')))
     attach = R.attach_test(h['K'], h['mode'], h['M']) if (h['K'] != 'root' and o['build'][0] == 'ok') else None
     print('builder=%s owner=%s method=%s switches at %s' % (h['K'], h['mode'], h['M'],
           [(i, s.points[i][2]) for i, c in enumerate(s.choices) if c]))
